@@ -2,8 +2,10 @@
 
 Correspondence (model ≈ code), all on a virtual clock (harness/c06_util.py):
   R  request scripts through the REAL `Resource.render_to_pipe` (-> `_render_to_pipe` ->
-     `Block1Spool.feed_and_take` / `Block2Cache.extract_or_insert` / `TimeoutDict`) behind the
-     real `pipe.error_to_message`; requests are built as a peer would build them, encoded and
+     `_render_blockwise` -> `Block1Spool.feed_and_take` / `Block2Cache.extract_or_insert` /
+     `TimeoutDict`) and the real `ObservableResource.render_to_pipe` (resources 2 and 3: one that
+     declines, one that accepts observations; the way a request takes there is compared with the
+     model's `obsEntry`) behind the real `pipe.error_to_message`; requests are built as a peer would build them, encoded and
      parsed with `Message.decode(data, remote)`; remotes are real `UDP6EndpointAddress`
      objects (real `blockwise_key`).  Lean: `BwServer.step` folded over the script.
   T  the real `TimeoutDict` vs Lean `TD` on timed get/set/del/mutate sequences.
@@ -20,20 +22,28 @@ import c06_util as U
 from common import compare, load_corpus, HarnessError
 
 RULE = ("R: scripts of 4-40 requests by 1-4 logical clients on 1-3 endpoints (distinct port / local "
-        "address / identical), 1-2 resources, queries and methods; each step is drawn state-aware: "
+        "address / identical), 1-4 resources (two plain, an observable one that declines and one that accepts "
+        "observations; clients of the latter put Observe: 0 on most requests), queries and methods; each step "
+        "is drawn state-aware: "
         "in-order next block, or a deviation (restart at 0, repeat, skip, last block first, payload "
         "length +-1 of the block size with and without the more flag, final block of size+1 / size+16 / "
-        "2*size bytes, blocks n+1 / repeated final block after the transfer was completed, size change, "
-        "beyond-end / later Block2 block without rendering); about 7 % of the handler behaviours raise "
+        "2*size bytes, block 0 too long / too short / two blocks long with the more flag or too long without, "
+        "followed by continuations, blocks n+1 / repeated final block after the transfer was completed, size "
+        "change, beyond-end / later Block2 block without rendering; Block2 options with block number 0 and "
+        ">= 1 on first, middle and final Block1 blocks); about 7 % of the handler behaviours raise "
         "(NotFound, MethodNotAllowed, BadRequest, Forbidden, ServiceUnavailable, RuntimeError, ValueError, "
         "KeyError) instead of returning a message, "
         "with idle times 0..3T biased to T-1,T,T+1,2T-1,2T,2T+1 (T = MAX_TRANSMIT_WAIT); body and "
         "rendering lengths are biased to k*size-1,k*size,k*size+1 and maximum_payload_size-1..+1. "
         "Boundary tables enumerate every szx 0..7 x those lengths (final blocks of size-1, size, size+1, "
-        "2*size and 0 bytes; blocks n+1, n+2 and the repeated final block after completion), every idle "
+        "2*size and 0 bytes; blocks n+1, n+2 and the repeated final block after completion; block 0 of 0, 1, "
+        "size-1, size, size+1, 2*size-1, 2*size, 3*size+1 bytes with and without the more flag, alone and over "
+        "a stored assembly, each followed by blocks 1, 2 and the block at the suggested offset), first x final "
+        "Block2 option of an upload (absent, 0, 1, 2/3, other size) with and without an older kept rendering, "
+        "every idle "
         "time x timer phase, and every exception class raised on a block-0 request (Block2 0, no Block2, "
         "final Block1 block, resource without assembly) while an older rendering is kept, followed by "
-        "later blocks. "
+        "later blocks; the block-0, Block2 and stale-rendering tables also on the observable resources. "
         "A script is non-trivial when a handler saw a multi-block body or a later Block2 block was "
         "served, and at least one request was refused. T: timed op sequences on 1-4 keys with "
         "T in {1,2,7,10} ticks. K: pairs of requests differing in one component of the block key.")
@@ -45,7 +55,9 @@ ASSUMPTIONS = ["one request is rendered atomically (the handler does not yield t
                "diagnostic payload text of error responses is not compared",
                "BERT (size exponent 7) is only exercised with maximum_payload_size >= 1024; the length of a final "
                "BERT block is not constrained",
-               "block 0 is not a continuation: its payload length is not judged against its block size"]
+               "observable resources: only the way a request takes (observation branch or not) and the first "
+               "response are judged; the Observe option an accepted observation puts on that response and the "
+               "notifications are C08's subject"]
 
 T_RFC = 93 * 1024          # MAX_TRANSMIT_WAIT of RFC 7252 in ticks, for the oracle only
 
@@ -142,16 +154,25 @@ def run_script(aiocoap, script, direct=False):
                 hpayload = mk_bytes(hspec)
                 ppay = bytes(msg.payload)
                 pspec = spec_str(st["payload"]) if ppay == payload else U.hexs(ppay)
+                observable = (not direct) and w.observable[st["res"]]
                 toks.append(",".join([
                     str(st["res"]), str(st["dt"]), str(st["asm"]), str(rid),
                     str(msg.remote.maximum_payload_size), str(msg.remote.maximum_block_size_exp),
                     str(int(msg.code)), U.blk_raw(msg, 27), U.blk_raw(msg, 23),
                     U.opts_str(U.opts_of(msg)), pspec,
-                    ("!" if hexc else "") + str(hcode), U.opts_str(hexopts(hopts)), spec_str(hspec)]))
+                    ("!" if hexc else "") + str(hcode), U.opts_str(hexopts(hopts)), spec_str(hspec),
+                    "1" if observable else "0"]))
                 call = w.request_direct if direct else w.request
                 resp, exc, seen = await call(st["res"], bool(st["asm"]), msg,
                                              (hcode, hexopts(hopts), hpayload, hexc))
                 rp = bytes(resp.payload)
+                ropts = U.opts_of(resp)
+                observing = False
+                if w.last_entry == "o" and w.last_open and not any(n == 6 for n, _ in hexopts(hopts)):
+                    # the first response of an accepted observation: the Observe option put on it is
+                    # the observation's business (C08), everything else is judged as usual
+                    observing = (6, b"") in ropts
+                    ropts = [x for x in ropts if x != (6, b"")]
                 if len(seen) == 0:
                     s = "-"
                 else:
@@ -159,13 +180,14 @@ def run_script(aiocoap, script, direct=False):
                     s = ("H" if len(seen) == 1 else f"H{len(seen)}") + \
                         f"~{c}~{U.blk_str(b1)}~{U.blk_str(b2)}~{U.opts_str(so)}~{U.hexs(sp)}"
                 outs.append(f"{int(resp.code)}|{U.blk_str(resp.opt.block1)}|{U.blk_str(resp.opt.block2)}|"
-                            f"{U.opts_str(U.opts_of(resp))}|{'-' if exc else U.hexs(rp)}|{s}")
+                            f"{U.opts_str(ropts)}|{'-' if exc else U.hexs(rp)}|{s}|{w.last_entry}")
                 obs.append({
                     "code": int(resp.code),
                     "b1": None if resp.opt.block1 is None else tuple(int(x) for x in resp.opt.block1),
                     "b2": None if resp.opt.block2 is None else tuple(int(x) for x in resp.opt.block2),
-                    "opts": U.opts_of(resp), "payload": rp, "exc": exc,
-                    "seen": [(c, sp, so) for (c, _b1, _b2, so, sp) in seen]})
+                    "opts": ropts, "payload": rp, "exc": exc,
+                    "seen": [(c, sp, so) for (c, _b1, _b2, so, sp) in seen],
+                    "entry": w.last_entry, "open": w.last_open, "observing": observing})
 
         w.loop.run_until_complete(whole())
         return f"C06 R {T} " + " ".join(toks), " ".join(outs), obs
@@ -185,7 +207,7 @@ def block_size(szx):
     return 1024 if szx == 7 else 1 << (szx + 4)
 
 
-def check_block2(gb2, R, o, mps):
+def check_block2(gb2, R, o, mps, mps_fit=None):
     """Is the observed successful response `o` a correct answer to Block2 option `gb2`
     (None: no option in the request) for rendering R = (code, opts, body)?  '' if so."""
     rcode, ropts, body = R
@@ -209,6 +231,11 @@ def check_block2(gb2, R, o, mps):
         return f"Block2 {rb2} in the response does not answer requested {gb2}"
     if gb2 is None and num != 0:
         return f"Block2 {rb2} in answer to a request without Block2"
+    if gb2 is None and len(body) <= (mps if mps_fit is None else mps_fit):
+        # the answered request states no block size wish (one sent with an earlier Block1 block does
+        # not count) and nothing forces the server to cut
+        return (f"response cut into blocks ({rb2}) although the request carries no Block2 option and the "
+                f"rendering of {len(body)} bytes fits the maximum payload size")
     start = num * block_size(szx)
     if start >= len(body) and not (len(body) == 0 and num == 0):
         return f"block {num} starts at {start}, beyond the body of {len(body)} bytes, but was served"
@@ -233,7 +260,7 @@ class Reference:
 
     def __init__(self, eps):
         self.eps = eps
-        self.asm = {}     # (res, key) -> dict(blocks, length, last, first_b2)
+        self.asm = {}     # (res, key) -> dict(blocks, length, last, certain)
         self.rend = {}    # (res, key) -> dict(R, last, kept)
 
     @staticmethod
@@ -245,6 +272,9 @@ class Reference:
         ep = self.eps[st["ep"]]
         ident = (tuple(ep[0]), ep[1])
         mps = ep[2]
+        # a script may describe one endpoint twice with different maximum payload sizes (the blocks of
+        # one body then arrive with different values): "fits" is judged against the smallest of them
+        mps_fit = min(e[2] for e in self.eps if (tuple(e[0]), e[1]) == ident)
         opts = hexopts(st["opts"])
         key = (st["res"], ident, st["code"], cache_key_opts(opts))
         payload = mk_bytes(st["payload"])
@@ -265,7 +295,6 @@ class Reference:
                 return f"handler raised {hexc}, answered {o['code']}"
             return ""
         b1 = st["b1"]
-        cand_b2 = [st["b2"]]
         if b1 is None:
             body = payload
         else:
@@ -281,7 +310,8 @@ class Reference:
                 size_bad = szx != 7 and len(payload) > size
             exp = set()
             if num == 0:
-                exp.add("accept")
+                # the first block of a body is a block like the others: its length must fit its size
+                exp.add(400 if size_bad else "accept")
             else:
                 if al in ("no", "maybe"):
                     exp.add(408)
@@ -310,7 +340,9 @@ class Reference:
             if got in (408, 400):
                 if seen:
                     return f"handler invoked although the block was refused with {o['code']}"
-                if a is not None:
+                if num == 0:
+                    pass      # a refused block 0 starts nothing and uses nothing that is stored
+                elif a is not None:
                     if got == 400:
                         a["last"], a["certain"] = now, True     # only an existing assembly checks sizes
                     elif al == "yes":
@@ -324,8 +356,7 @@ class Reference:
                         del self.asm[key]
                 return ""
             if num == 0:
-                a = {"blocks": [payload], "length": len(payload), "last": now, "first_b2": st["b2"],
-                     "certain": True}
+                a = {"blocks": [payload], "length": len(payload), "last": now, "certain": True}
                 self.asm[key] = a
             else:
                 a["blocks"].append(payload)
@@ -343,21 +374,21 @@ class Reference:
                     return "2.31 with payload"
                 return ""
             body = b"".join(a["blocks"])
-            if st["b2"] is None and len(a["blocks"]) > 1 and a["first_b2"] is not None:
-                cand_b2.append(a["first_b2"])
             # the transfer is complete: it ends here, a later block belongs to no transfer
             del self.asm[key]
-        # ---- the (assembled) request reaches the handler / the rendering cache
-        verdicts = []
-        for gb2 in cand_b2:
-            v = self.stage2(now, key, gb2, R, o, seen, body, st, mps, hexc, commit=False)
-            verdicts.append(v)
-            if v == "":
-                self.stage2(now, key, gb2, R, o, seen, body, st, mps, hexc, commit=True)
-                return ""
-        return verdicts[0]
+        # ---- the (assembled) request reaches the handler / the rendering cache.  The request that is
+        # answered is this one (for an upload: its final block): its Block2 option, or its absence,
+        # says which part of the response is asked for -- never an option sent with an earlier block
+        # (RFC 7959 2.3: the Block2 option of the request that gets the response; aiocoap's own client
+        # repeats a block size wish on every Block1 block).
+        gb2 = st["b2"]
+        v = self.stage2(now, key, gb2, R, o, seen, body, st, (mps, mps_fit), hexc, commit=False)
+        if v == "":
+            self.stage2(now, key, gb2, R, o, seen, body, st, (mps, mps_fit), hexc, commit=True)
+        return v
 
-    def stage2(self, now, key, gb2, R, o, seen, body, st, mps, hexc, commit):
+    def stage2(self, now, key, gb2, R, o, seen, body, st, mpss, hexc, commit):
+        mps, mps_fit = mpss
         fresh = gb2 is None or gb2[0] == 0
         if fresh:
             if len(seen) != 1:
@@ -376,7 +407,7 @@ class Reference:
                 if commit:
                     self.rend.pop(key, None)
                 return ""
-            v = check_block2(gb2, R, o, mps)
+            v = check_block2(gb2, R, o, mps, mps_fit)
             if v:
                 return v
             if st["b1"] is not None and o["b1"] != (st["b1"][0], 1 if st["b1"][1] else 0, st["b1"][2]):
@@ -479,8 +510,12 @@ class Client:
 
     def __init__(self, rng, eps, big):
         self.ep = rng.randrange(len(eps))
-        self.res = rng.choice([0, 0, 1])
+        self.res = rng.choice([0, 0, 0, 1, 2, 3])       # 2, 3: observable resources (declining / accepting)
         self.code = rng.choice([GET, GET, POST, PUT, PUT, FETCH, IPATCH])
+        if self.res >= 2 and rng.random() < 0.5:
+            self.code = rng.choice([GET, FETCH, FETCH])
+        # how often this client puts Observe: 0 on its requests (observable resources: mostly)
+        self.p_observe = rng.choice([0.5, 0.9, 1.0]) if self.res >= 2 else 0.1
         path = rng.choice(["61", "61", "62"])
         self.opts = [[11, path]]
         if rng.random() < 0.4:
@@ -529,8 +564,9 @@ def gen_script(rng, T, big=False):
         if rng.random() < 0.2:
             opts.append([60, "%02x" % rng.randrange(1, 255)])     # Size1: NoCacheKey
             opts.sort(key=lambda o: o[0])
-        if rng.random() < 0.1:
-            opts.append([6, "-"])                                  # Observe: ignored in the key
+        if rng.random() < c.p_observe:
+            # Observe: ignored in the key; value 0 asks an observable resource for an observation
+            opts.append([6, "-" if rng.random() < 0.9 else "01"])
             opts.sort(key=lambda o: o[0])
         r = rng.random()
         uploading = c.up is not None
@@ -566,7 +602,7 @@ def gen_script(rng, T, big=False):
         if not uploading or k < 2:
             L = len_around(rng, size, c.mps, multi=True)
             c.up = [pat(L, rng.randrange(256), rng.choice([1, 5, 11])), 0]
-            kind = "u_start"
+            kind = "u_start" if rng.random() < 0.85 else "u_wrong_size0"
         elif k < 13:
             kind = "u_next" if c.up[1] < max(c.up[0][1], 1) else "u_after_done"
         elif k < 14:
@@ -582,7 +618,7 @@ def gen_script(rng, T, big=False):
         spec, off = c.up
         L = spec[1]
         szx = c.szx
-        if kind == "u_start":
+        if kind in ("u_start", "u_wrong_size0"):
             off = 0
         elif kind == "u_skip":
             off += size
@@ -616,16 +652,44 @@ def gen_script(rng, T, big=False):
             else:
                 pl = pat(size + rng.choice([1, 1, 16, size]), 3)    # oversize final block
                 more = False
+        believed = off + size
+        if kind == "u_wrong_size0":
+            # block 0 whose length contradicts its size, with and without the more flag; the client
+            # then goes on as if it had been taken (continuations follow)
+            w = rng.randrange(6)
+            if w == 0:
+                pl, more = pat(size + rng.choice([1, 16, size]), 9), True       # too long, more
+                believed = pl[1] // size * size
+            elif w == 1:
+                pl, more = pat(rng.choice([0, 1, 5, size - 1]), 9), True        # too short, more
+            elif w == 2:
+                pl, more = pat(2 * size, 9), True                               # two blocks in one
+                believed = 2 * size
+            elif w == 3:
+                pl, more = pat(size + rng.choice([1, 1, 16, size]), 9), False   # too long, final
+            elif w == 4:
+                pl, more = pat(3 * size + 1, 9), False
+            else:
+                pl, more = pat(size, 9), rng.random() < 0.5                     # (a correct one)
+            if szx == 7:
+                more = more and rng.random() < 0.7
         b2 = None
-        if not more and rng.random() < 0.4:
+        r2 = rng.random()
+        if not more and r2 < 0.4:
             b2 = (0, 0, c.dszx)
             c.down_next, c.down_len = 1, hlen
-        elif more and rng.random() < 0.1:
+        elif not more and r2 < 0.5:
+            # the final block asks for a later block of what is kept from an earlier request
+            b2 = (rng.choice([1, 1, 2, c.down_next]), 0, c.dszx)
+        elif more and r2 < 0.12:
             b2 = (0, 0, c.dszx)
+        elif more and r2 < 0.24:
+            # a Block2 option with a later block number on a block that is not the final one
+            b2 = (rng.choice([1, 1, 2, 5]), 0, rng.choice([c.dszx, 0]))
         steps.append(step_of(c, dt, (num, 1 if more else 0, szx), b2, pl, h, opts))
         kinds.append(kind)
-        if kind in ("u_start", "u_next", "u_resize") :
-            c.up[1] = off + size
+        if kind in ("u_start", "u_next", "u_resize", "u_wrong_size0"):
+            c.up[1] = believed
             if not more:
                 c.up = None if rng.random() < 0.7 else c.up
     return {"kind": "R", "eps": eps, "steps": steps}, kinds
@@ -691,6 +755,66 @@ def boundary_scripts(T):
                 steps.append(st(PUT, 1, [1, 0, szx], None, pat(fl, 7), [68, [], "-"]))
                 steps.append(st(PUT, 1, [1, 0, szx], None, pat(fl, 7), [68, [], "-"]))
             out.append({"kind": "R", "eps": ep, "steps": steps})
+    # block 0 is a block like the others: every szx x payload lengths around the block size x more flag,
+    # followed by continuations (block 1, block 2, the block at the offset the payload would suggest) --
+    # alone, and while an older assembly of the same key is stored (a refused block 0 leaves that one
+    # alone, an accepted one replaces it).  On a plain resource and on an observable one (FETCH with
+    # Observe: 0).
+    oobs = [[6, "-"], [11, "61"]]
+    for szx in range(8):
+        size = U_size(szx)
+        for res, code, oo in ((0, PUT, o), (2, FETCH, oobs)):
+            for L in sorted({0, 1, size - 1, size, size + 1, 2 * size - 1, 2 * size, 3 * size + 1}):
+                for m in (1, 0):
+                    hh = [68, [], pat(3, 1)]
+                    tail = [st(code, 1, [1, 1, szx], None, pat(size, 2), hh, opts=oo, res=res),
+                            st(code, 1, [2, 0, szx], None, pat(3, 3), hh, opts=oo, res=res),
+                            st(code, 1, [max(1, L // size), 0, szx], None, pat(3, 4), hh, opts=oo, res=res)]
+                    out.append({"kind": "R", "eps": ep, "steps":
+                                [st(code, 0, [0, m, szx], None, pat(L, 5), hh, opts=oo, res=res)] + tail})
+                    out.append({"kind": "R", "eps": ep, "steps":
+                                [st(code, 0, [0, 1, szx], None, pat(size, 6), hh, opts=oo, res=res),
+                                 st(code, 1, [0, m, szx], None, pat(L, 5), hh, opts=oo, res=res),
+                                 st(code, 1, [1, 0, szx], None, pat(3, 7), hh, opts=oo, res=res),
+                                 st(code, 1, [1, 0, szx], None, pat(3, 7), hh, opts=oo, res=res)]})
+    # the Block2 option of the FINAL Block1 block governs, whatever block 0 carried: first x final Block2
+    # option (absent, block 0, later blocks, another size), with and without a rendering kept from an older
+    # body, then later blocks; plain resource and observable resources (Observe: 0)
+    for res, code, oo in ((0, POST, o), (2, FETCH, oobs), (3, FETCH, oobs)):
+        for first_b2 in (None, [0, 0, 0], [1, 0, 0], [2, 0, 0], [0, 0, 2]):
+            for final_b2 in (None, [0, 0, 0], [1, 0, 0], [3, 0, 0], [0, 0, 1]):
+                for kept in (True, False):
+                    hold, hnew = [69, [[12, "2a"]], pat(40, 1)], [69, [], pat(36, 100, 3)]
+                    steps = []
+                    if kept:
+                        steps.append(st(code, 0, None, [0, 0, 0], pat(8, 1), hold, opts=oo, res=res))
+                    steps += [st(code, 1, [0, 1, 0], first_b2, pat(16, 2), hnew, opts=oo, res=res),
+                              st(code, 1, [1, 0, 0], final_b2, pat(3, 3), hnew, opts=oo, res=res),
+                              st(code, 1, None, [1, 0, 0], "-", hold, opts=oo, res=res),
+                              st(code, 1, None, [2, 0, 0], "-", hold, opts=o, res=res)]
+                    out.append({"kind": "R", "eps": ep, "steps": steps})
+    # observable resources: the first response of an observation comes out of the same slicing step
+    esmall = [[list(ADDRS[0]), None, 64, 2]]
+    for res in (2, 3):
+        for ov in ("-", "01", None):
+            oo = o if ov is None else [[6, ov], [11, "61"]]
+            # no Block2 option, rendering longer than maximum_payload_size: first block + kept
+            for L in (63, 64, 65, 100, 128, 129):
+                out.append({"kind": "R", "eps": esmall, "steps": [
+                    st(GET, 0, None, None, "-", [69, [[12, "2a"]], pat(L, 3, 7)], opts=oo, res=res),
+                    st(GET, 1, None, [1, 0, 2], "-", [69, [], "-"], opts=oo, res=res),
+                    st(GET, 1, None, [1, 0, 2], "-", [69, [], "-"], opts=o, res=res),
+                    st(GET, 1, None, [2, 0, 2], "-", [69, [], "-"], opts=o, res=res)]})
+            # a rendering kept from an earlier request is not served after a newer request for the
+            # beginning was answered completely, or failed
+            for h2 in ([69, [], pat(10, 9)], h_raise("NotFound"), h_raise("RuntimeError"), [132, [], pat(4, 1)]):
+                for b2 in (None, [0, 0, 0]):
+                    out.append({"kind": "R", "eps": ep, "steps": [
+                        st(GET, 0, None, [0, 0, 0], "-", [69, [], pat(40, 1)], opts=o, res=res),
+                        st(GET, 1, None, [1, 0, 0], "-", [69, [], "-"], opts=oo, res=res),
+                        st(GET, 1, None, b2, "-", h2, opts=oo, res=res),
+                        st(GET, 1, None, [1, 0, 0], "-", [69, [], "-"], opts=oo, res=res),
+                        st(GET, 1, None, [1, 0, 0], "-", [69, [], "-"], opts=o, res=res)]})
     # BERT (szx 7): blocks with the more flag are multiples of 1024 bytes, block numbers count 1024-byte
     # units, a final block has any length
     for n0 in (1, 2, 3):
@@ -992,7 +1116,13 @@ def run(env, rep):
             scripts.append((c, ["corpus"] * len(c["steps"])))
     for s in boundary_scripts(T):
         scripts.append((s, ["boundary"] * len(s["steps"])))
-    rep.exhaustive_parts.append("szx 0..7 x body lengths k*size-1..k*size+1 for Block1 and Block2; per szx final "
+    rep.exhaustive_parts.append("szx 0..7 x block 0 of 0, 1, size-1, size, size+1, 2*size-1, 2*size, 3*size+1 bytes x more "
+                                "flag, alone and over a stored assembly, followed by blocks 1, 2 and the block at the "
+                                "suggested offset (plain and observable resource); first x final Block2 option of an "
+                                "upload {absent, 0, 1, 2|3, other size} x older rendering kept or not (plain, observable "
+                                "declining / accepting); observable resources: Observe 0 / 1 / absent x rendering lengths "
+                                "around maximum_payload_size, stale kept rendering x {short, raising, error} newer request; "
+                                "szx 0..7 x body lengths k*size-1..k*size+1 for Block1 and Block2; per szx final "
                                 "blocks of 0, size-1, size, size+1, 2*size bytes and blocks n+1 / n+1 with more / "
                                 "n+2 / repeated final block after completion; BERT Block1 sequences (multiples of 1024 with the more flag, "
                                 "1000 / 1025 bytes refused, final block of 2500 bytes); idle times "
@@ -1016,7 +1146,7 @@ def run(env, rep):
         for k, o, st in zip(kinds, obs, script["steps"]):
             rep.count("R:step=" + k)
             total += 1
-            if k.split("_")[-1] in ("skip", "repeat", "first", "size", "beyond", "resize", "done"):
+            if k.split("_")[-1] in ("skip", "repeat", "first", "size", "size0", "beyond", "resize", "done"):
                 deviations += 1
             cls = {95: "2.31", 136: "4.08", 128: "4.00"}.get(o["code"], "%d.xx" % (o["code"] >> 5)) \
                 if (o["exc"] or o["code"] == 95) else "rendered"
@@ -1030,6 +1160,21 @@ def run(env, rep):
                 rep.count("R:final-block-oversize")
             if o["b2"] is not None:
                 rep.count("R:block2=" + ("first" if o["b2"][0] == 0 else "later") + ("+more" if o["b2"][1] else ""))
+            if st["b1"] is not None and st["b1"][0] == 0:
+                plen = len(mk_bytes(st["payload"]))
+                bsz = block_size(st["b1"][2])
+                if st["b1"][1]:
+                    bad = not (plen == bsz or (st["b1"][2] == 7 and plen % 1024 == 0))
+                else:
+                    bad = st["b1"][2] != 7 and plen > bsz
+                rep.count("R:block0=" + ("more" if st["b1"][1] else "final") + ("+wrong-size" if bad else ""))
+            if st["b1"] is not None and st["b2"] is not None:
+                rep.count("R:block1-with-block2=" + ("final" if not st["b1"][1] else
+                                                     ("first" if st["b1"][0] == 0 else "middle"))
+                          + ("+num0" if st["b2"][0] == 0 else "+later"))
+            if o["entry"] != "-":
+                rep.count("R:observable-entry=" + o["entry"] + ("+block1" if st["b1"] is not None else "")
+                          + ("+open" if o["open"] else ""))
             if st["dt"] >= T - 1:
                 rep.count("R:idle>=T-1")
         v, idx = oracle_script(script, obs)
@@ -1043,8 +1188,10 @@ def run(env, rep):
     for o in outs:
         for tok in o.split(" "):
             f = tok.split("|")
-            if len(f) != 6:
+            if len(f) != 7:
                 continue
+            if f[6] != "-":
+                rep.count("model:observable-entry=" + f[6])
             if f[5] == "-" and f[0] in ("95", "136", "128") and f[4] == "-":
                 rep.count("model:refused=" + f[0])
             if f[5] != "-":
@@ -1053,7 +1200,8 @@ def run(env, rep):
                 n, m, _ = f[2].split("/")
                 rep.count("model:block2=" + ("first" if n == "0" else "later") + ("+more" if m == "1" else ""))
     for need in ("model:refused=95", "model:refused=136", "model:refused=128", "model:handler",
-                 "model:block2=later", "model:block2=later+more", "model:block2=first+more"):
+                 "model:block2=later", "model:block2=later+more", "model:block2=first+more",
+                 "model:observable-entry=o", "model:observable-entry=p"):
         if not rep.hist.get(need):
             raise HarnessError(f"generator never reached {need}")
 
